@@ -148,9 +148,26 @@ def run(op, a):
             spk, nsig, who = CScript([A, OP_CHECKSIG, OP_NOT]), 1, [1]
         elif kind == 5:
             spk, nsig, who = CScript([1, bad, A, 2, OP_CHECKMULTISIG]), 1, [0]
+        elif kind in (7, 8):
+            spk = None       # built below, it contains a signature
         else:
             spk, nsig, who = CScript([bad, OP_CHECKSIG, OP_NOT, OP_VERIFY if False else 0x69, A, OP_CHECKSIG]), 2, [0, 0]
         tx = tx_from_val(tv, mutable=True)
+        if kind in (7, 8):
+            # A signature of the spend is itself a push of the script: the check of THAT signature hashes the
+            # script with the push removed (FindAndDelete), the check of the other one hashes the whole
+            # script - two different digests under one pbegincodehash and one hash type (seeded change
+            # C06-17).  kind 7: each signature over its own digest (must be accepted); kind 8: the second
+            # signature over the first one's digest (must be refused)
+            from bitcoin.core.script import OP_DROP
+            s0 = CScript([OP_DROP, A, OP_CHECKSIGVERIFY, B, OP_CHECKSIG])
+            sig1 = keys[0].sign(SignatureHash(s0, tx, idx, ht)) + bytes([ht])
+            spk = CScript(bytes(CScript([sig1])) + bytes(s0))      # (CScript + CScript would push s0 as data)
+            sig2 = keys[1].sign(SignatureHash(spk if kind == 7 else s0, tx, idx, ht)) + bytes([ht])
+            ssig = CScript([sig2, sig1])
+            tx.vin[idx].scriptSig = ssig
+            r0 = outcome(lambda: E.VerifyScript(ssig, spk, tx, idx, {E.SCRIPT_VERIFY_P2SH}))
+            return [r0, bytes(ssig), bytes(spk)]
         h = SignatureHash(spk, tx, idx, ht)
         sigs = [keys[w].sign(h) + bytes([ht]) for w in who]
         parts = ([OP_0] if kind in (2, 5) else []) + sigs
